@@ -265,7 +265,8 @@ def draw_property_layers(
                 f"PropertyLayer {layer_name} portrayal must include 'color' or 'colormap'."
             )
 
-        if isinstance(space, OrthogonalGrid):
+        # old-style hex grids are subclasses of SingleGrid / MultiGrid, so rule them out first
+        if isinstance(space, OrthogonalGrid) and not isinstance(space, HexGrid):
             if "color" in portrayal:
                 data = data.T
                 normalized_data = (data - vmin) / (vmax - vmin)
